@@ -20,8 +20,10 @@ namespace Vgi.Errors
 
 /-- A Go `error` value. -/
 inductive GoErr
-  /-- `&RpcError{Type, Message, Kind}` -/
-  | rpc (ty msg kind : String)
+  /-- `&RpcError{Type, Message, Kind, Traceback, RequestID}` — every exported field. `tb` is the
+  value's OWN `Traceback` field (e.g. decoded by a client from an upstream server that had debug
+  errors on), `rid` its `RequestID` field. -/
+  | rpc (ty msg kind tb rid : String)
   /-- `&MethodNotImplementedError{Method, Message}` -/
   | notImpl (method msg : String)
   /-- `&ProtocolVersionError{Message}` -/
@@ -48,7 +50,7 @@ def sessionLostDefault : String := "session lost"
 
 /-- `err.Error()`. -/
 def GoErr.message : GoErr → String
-  | .rpc ty msg _ => ty ++ ": " ++ msg
+  | .rpc ty msg _ _ _ => ty ++ ": " ++ msg
   | .notImpl method msg => if msg ≠ "" then msg else "Unknown method: '" ++ method ++ "'"
   | .protoVersion msg => msg
   | .sessionLost reason => if reason ≠ "" then reason else sessionLostDefault
@@ -83,7 +85,7 @@ def serverDrainingError : String := "ServerDrainingError"
 /-- `errType` in `buildErrorExtra`: starts as the fallback `"RuntimeError"`, replaced by the case
 of the type switch that matches the *dynamic type of the value itself* (no unwrapping). -/
 def wireType : GoErr → String
-  | .rpc ty _ _ => ty                              -- case *RpcError: e.Type
+  | .rpc ty _ _ _ _ => ty                              -- case *RpcError: e.Type
   | .notImpl .. => attributeError                  -- case *MethodNotImplementedError: e.ErrorType()
   | .sessionLost .. => sessionLostError            -- case *SessionLostError
   | .draining => serverDrainingError               -- case *ServerDrainingError
@@ -104,7 +106,7 @@ def kindDraining : String := "server_draining"
 /-- `err.(errorKindCarrier)`: does the value's own type have an `ErrorKind()` method, and what does
 it return. -/
 def carrierKind : GoErr → Option String
-  | .rpc _ _ kind => some kind
+  | .rpc _ _ kind _ _ => some kind
   | .notImpl .. => some kindNotImpl
   | .protoVersion .. => some kindProtoVersion
   | .sessionLost .. => some kindSessionLost
@@ -146,6 +148,8 @@ structure Extra where
   frames : List Frame
   deriving Repr, DecidableEq
 
+/-- Traceback and frames come from THIS process's runtime and only when `debug`; an
+`*RpcError`'s own `Traceback` / `RequestID` fields are never read. -/
 def buildErrorExtra (env : Env) (e : GoErr) (debug : Bool) : Extra :=
   { exceptionType := wireType e
     exceptionMessage := e.message
@@ -204,10 +208,10 @@ a panic is recovered into `&RpcError{Type: "RuntimeError", Message: …}` — wi
 `"handler panicked: "` prefix in unary and stream-init handlers, bare `%v` in stream turns. -/
 def raised : Site → Outcome → GoErr
   | _, .ret e => e
-  | .unary, .panic v => .rpc runtimeError (panicPrefix ++ v.render) ""
-  | .streamInit, .panic v => .rpc runtimeError (panicPrefix ++ v.render) ""
-  | .produce, .panic v => .rpc runtimeError v.render ""
-  | .exchange, .panic v => .rpc runtimeError v.render ""
+  | .unary, .panic v => .rpc runtimeError (panicPrefix ++ v.render) "" "" ""
+  | .streamInit, .panic v => .rpc runtimeError (panicPrefix ++ v.render) "" "" ""
+  | .produce, .panic v => .rpc runtimeError v.render "" "" ""
+  | .exchange, .panic v => .rpc runtimeError v.render "" "" ""
 
 /-- The EXCEPTION batch a call ends with. -/
 def exceptionBatch (env : Env) (site : Site) (o : Outcome) (debug : Bool) : Envelope :=
